@@ -59,7 +59,7 @@ ASSUMPTIONS = ['all durations and clock advances are multiples of 10 ms (remaini
 
 NS = 'urn:verif'
 OTHER_DIALECT = 'urn:verif:other-dialect'
-OUTCOMES = ['ok', 'httpError', 'refused', 'notConnected', 'timeout']
+OUTCOMES = ['ok', 'httpError', 'garbage', 'refused', 'timeout', 'reset']   # what the environment can do (Env.set_mode)
 NADDR = 6
 MGRS = ['sync-path', 'sync-ref', 'async-path', 'async-ref']
 _L = None
@@ -93,43 +93,80 @@ def lib():
         L.classes = {'sync-path': sync.PathDispatchingSubscriptionsManager, 'sync-ref': sync.ReferenceParamSubscriptionsManager,
                      'async-path': asy.SubscriptionsManagerPathAsync, 'async-ref': asy.SubscriptionsManagerReferenceParamAsync}
 
-        class FakeClient:
-            roundtrip_time = observableproperties.ObservableProperty()
+        from sdc11073 import loghelper
+        from sdc11073.pysoap.soapclient import SoapClient
+        from sdc11073.pysoap.soapclient_async import SoapClientAsync
+        from sdc11073.pysoap.soapenvelope import Fault, faultcodeEnum
+        import aiohttp.client_exceptions as aioex
+        L.aioex = aioex
+        fault = Fault()
+        fault.Code.Value = faultcodeEnum.RECEIVER
+        fault.add_reason_text('verif: subscriber says no')
+        L.fault_body = L.mf.mk_soap_message(HeaderInformationBlock(action=fault.action, addr_to='http://verif/anonymous'),
+                                            fault).serialize(validate=False)
+        log = loghelper.get_logger_adapter('sdc.verif.soapclient', 'verif')
 
-            def __init__(self, env, netloc):
-                self.env, self.netloc, self.closed = env, netloc, False
+        def outcome_of(ex):
+            """canonical name of what the soap client did with a message (decided by the real client code)"""
+            if ex is None:
+                return 'ok'
+            if isinstance(ex, HTTPReturnCodeError):
+                return 'httpError'
+            if isinstance(ex, (ConnectionRefusedError, aioex.ClientConnectorError)):
+                return 'refused'
+            if isinstance(ex, TimeoutError):
+                return 'timeout'
+            if isinstance(ex, (http.client.NotConnected, aioex.ServerDisconnectedError)):
+                return 'notConnected'
+            if isinstance(ex, etree.XMLSyntaxError):
+                return 'parseError'
+            return 'other-' + type(ex).__name__
 
-            def _post(self, path, message):
-                o = self.env.on_post(self.netloc, path, message)
-                self.roundtrip_time = 0.001
-                if o == 'ok':
-                    return None
-                if o == 'httpError':
-                    raise HTTPReturnCodeError(500, 'verif', None)
-                if o == 'refused':
-                    raise ConnectionRefusedError('verif')
-                if o == 'notConnected':
-                    raise http.client.NotConnected
-                if o == 'timeout':
-                    raise TimeoutError('verif')
-                raise AssertionError(o)
+        class LoopSoapClient(SoapClient):
+            """the real synchronous SoapClient; only the http connection underneath is replaced (FakeConn)"""
 
-            def post_message_to(self, path, message, msg='', request_manipulator=None, validate=True):  # noqa: ARG002
-                return self._post(path, message)
+            def __init__(self, env, netloc, encodings):
+                super().__init__(netloc, 1.0, log, None, SdcV1Definitions, L.mr, request_encodings=encodings)
+                self.env = env
 
-            async def async_post_message_to(self, path, message, msg='', request_manipulator=None):  # noqa: ARG002
+            def _mk_http_connection(self):
+                return FakeConn(self.env, self._netloc)
+
+            def post_message_to(self, path, message, msg='', request_manipulator=None, validate=True):
+                rec = self.env.on_post(self._netloc, path, message)   # hand-over to the soap client
+                try:
+                    res = super().post_message_to(path, message, msg=msg, request_manipulator=request_manipulator, validate=validate)
+                except Exception as ex:
+                    rec['outcome'] = outcome_of(ex)
+                    raise
+                finally:
+                    self.env.current = None
+                rec['outcome'] = 'ok'
+                return res
+
+        class LoopSoapClientAsync(SoapClientAsync):
+            """the real SoapClientAsync; the aiohttp session underneath is replaced (FakeSession)"""
+
+            def __init__(self, env, netloc, encodings):
+                super().__init__(netloc, 1.0, log, None, SdcV1Definitions, L.mr, request_encodings=encodings)
+                self.env = env
+
+            async def _mk_http_connection(self):
+                return FakeSession(self.env, self._netloc)
+
+            async def async_post_message_to(self, path, message, request_manipulator=None):
                 await asyncio.sleep(0)
-                return self._post(path, message)
-
-            def close(self):
-                self.closed = True
-
-            async def async_close(self):
-                self.closed = True
-
-            def is_closed(self):
-                return self.closed
-        L.FakeClient = FakeClient
+                rec = self.env.on_post(self._netloc, path, message)
+                try:
+                    res = await super().async_post_message_to(path, message, request_manipulator=request_manipulator)
+                except Exception as ex:
+                    rec['outcome'] = outcome_of(ex)
+                    raise
+                finally:
+                    self.env.current = None
+                rec['outcome'] = 'ok'
+                return res
+        L.LoopSoapClient, L.LoopSoapClientAsync = LoopSoapClient, LoopSoapClientAsync
         _L = L
     return _L
 
@@ -144,6 +181,110 @@ def addr_str(a):
 
 
 ADDR_OF = {addr_parts(a): a for a in range(NADDR)}
+
+
+class FakeSock:
+    @staticmethod
+    def getsockname():
+        return ('127.0.0.1', 50000)
+
+    def setsockopt(self, *a):
+        pass
+
+
+class FakeResponse:
+    def __init__(self, status, reason, body):
+        self.status, self.reason, self._body = status, reason, body
+        self._headers = {'content-length': str(len(body)), 'content-type': 'application/soap+xml; charset=utf-8'}
+
+    def getheader(self, name, default=None):
+        return self._headers.get(name.lower(), default)
+
+    def getheaders(self):
+        return list(self._headers.items())
+
+    def read(self, _n=None):
+        b, self._body = self._body, b''
+        return b
+
+    async def text(self):
+        return self._body.decode('utf-8')
+
+
+def _answer(env, netloc, path):
+    """what the subscriber at netloc/path answers to a POST that reached it"""
+    mode = env.modes.get(ADDR_OF.get((netloc, path)), 'ok')
+    if mode == 'httpError':
+        return FakeResponse(500, 'Internal Server Error', env.L.fault_body)
+    if mode == 'garbage':
+        return FakeResponse(200, 'OK', b'OK')   # not a soap envelope, not even xml
+    return FakeResponse(202, 'Accepted', b'')
+
+
+class FakeConn:
+    """stands for http.client.HTTPConnection under the real SoapClient: connect / request / getresponse / close"""
+
+    def __init__(self, env, netloc):
+        self.env, self.netloc, self.sock, self.broken, self._path = env, netloc, None, False, None
+        env.conns.setdefault(netloc, []).append(self)
+
+    def connect(self):
+        hm = self.env.host.get(self.netloc, 'up')
+        self.env.wire('connect:' + hm)
+        if hm == 'refused':
+            raise ConnectionRefusedError(111, 'verif: connection refused')
+        if hm == 'timeout':
+            raise TimeoutError('verif: timed out')
+        self.sock = FakeSock()
+
+    def request(self, _method, path, body=None, headers=None):  # noqa: ARG002
+        if self.broken or self.env.host.get(self.netloc, 'up') != 'up':
+            self.env.wire('request:reset')
+            raise ConnectionResetError(104, 'verif: connection reset by peer')
+        self.env.wire('request:sent')
+        self._path = path
+
+    def getresponse(self):
+        return _answer(self.env, self.netloc, self._path)
+
+    def close(self):
+        self.sock = None
+
+
+class FakeSession:
+    """stands for aiohttp.ClientSession under the real SoapClientAsync (aiohttp opens a new connection when needed)"""
+
+    def __init__(self, env, netloc):
+        self.env, self.netloc, self.broken = env, netloc, False
+        env.conns.setdefault(netloc, []).append(self)
+
+    def post(self, path, data=None, headers=None):  # noqa: ARG002
+        sess = self
+
+        class _Cm:
+            async def __aenter__(self):
+                env, aioex = sess.env, sess.env.L.aioex
+                hm = env.host.get(sess.netloc, 'up')
+                if hm == 'refused':
+                    env.wire('connect:refused')
+                    key = types.SimpleNamespace(host=sess.netloc, port=0, ssl=None, is_ssl=False)
+                    raise aioex.ClientConnectorError(key, ConnectionRefusedError(111, 'verif: connection refused'))
+                if hm == 'timeout':
+                    env.wire('connect:timeout')
+                    raise asyncio.TimeoutError
+                if sess.broken:
+                    sess.broken = False
+                    env.wire('request:reset')
+                    raise aioex.ServerDisconnectedError
+                env.wire('request:sent')
+                return _answer(env, sess.netloc, path)
+
+            async def __aexit__(self, *a):
+                return False
+        return _Cm()
+
+    async def close(self):
+        pass
 
 
 class Clock:
@@ -205,13 +346,17 @@ class Env:
         self.kind = case['mgr']
         cls = L.classes[self.kind]
         self.clock = Clock()
-        self.modes = {}
+        self.modes = {}      # per address: what the subscriber answers (ok / httpError / garbage)
+        self.host = {}       # per netloc: up / refused / timeout (connection level)
+        self.conns = {}      # per netloc: fake connections / sessions created so far
+        self.current = None  # the hand-over record the wire events belong to
         self.posts = []
         self.issued = []       # per model id: dict(hex, path, refs, k)
         self.k2id = {}
         self.nsub_ops = 0
-        self.pool = L.SoapClientPool(lambda netloc, enc: L.FakeClient(self, netloc), 'verif')
         self.is_async = issubclass(cls, L.asy.BICEPSSubscriptionsManagerBaseAsync)
+        client_cls = L.LoopSoapClientAsync if self.is_async else L.LoopSoapClient
+        self.pool = L.SoapClientPool(lambda netloc, enc: client_cls(self, netloc, enc), 'verif')
         if self.is_async:
             self.pool.async_loop_subscr_mgr = LoopThread()
         md = case.get('maxdur')
@@ -242,10 +387,30 @@ class Env:
         a = ADDR_OF.get((netloc, path))
         if a is not None and hib.To != addr_str(a):
             a = None
-        o = self.modes.get(a, 'ok')
         kind = 'e' if hib.Action == L.EventingActions.SubscriptionEnd else 'n'
-        self.posts.append(dict(kind=kind, action=hib.Action, k=k, addr=a, outcome=o))
-        return o
+        rec = dict(kind=kind, action=hib.Action, k=k, addr=a, outcome='?', wire=[])
+        self.posts.append(rec)
+        self.current = rec
+        return rec
+
+    def wire(self, event):
+        """something happened on the (fake) network on behalf of the current hand-over"""
+        if self.current is not None:
+            self.current['wire'].append(event)
+
+    def set_mode(self, a, o):
+        netloc = addr_parts(a)[0]
+        if o in ('ok', 'httpError', 'garbage'):     # the subscriber is up and answers like this
+            self.modes[a] = o
+            self.host[netloc] = 'up'
+        elif o in ('refused', 'timeout'):            # the host does not accept connections; established ones break
+            self.host[netloc] = o
+        elif o == 'reset':                           # subscriber restarted: established connections are gone, new ones work
+            for c in self.conns.get(netloc, []):
+                c.broken = True
+            self.host[netloc] = 'up'
+        else:
+            raise ValueError(o)
 
     def _patched(self):
         L = self.L
@@ -270,7 +435,7 @@ class Env:
         out = []
         for p in self.posts:
             i = self.k2id.get(p['k'], '?')
-            out.append((p['kind'], i, '?' if p['addr'] is None else p['addr'], p['outcome'], p['action']))
+            out.append((p['kind'], i, '?' if p['addr'] is None else p['addr'], p['outcome'], p['action'], ' '.join(p['wire'])))
         self.posts = []
         return out
 
@@ -283,8 +448,8 @@ class Env:
             try:
                 return self._do(op)
             except Exception as ex:  # noqa: BLE001
-                self.posts = []
-                return self._line(op), f'exc {type(ex).__name__}', ('exc', type(ex).__name__)
+                m = self.msgs()
+                return self._line(op, m), f'exc {type(ex).__name__}', ('exc', type(ex).__name__, m)
 
     @staticmethod
     def _s(s):
@@ -294,8 +459,12 @@ class Env:
     def _o(x):
         return '-' if x is None else str(x)
 
-    def _line(self, op):
+    MODE_NAME = {'garbage': 'parseError', 'reset': 'notConnected'}
+
+    def _line(self, op, msgs=()):
         t, o = op[0], self._o
+        # the outcomes observed per delivery are environment input of the model (`ov`)
+        ov = ','.join(f'{m[1]}:{m[3]}' for m in msgs if isinstance(m[1], int)) or '-'
         if t == 'sub':
             _, nt, et, flt, dok, exp, _eid = op
             f = 'none' if flt is None else ('-' if not flt else ';'.join(self._s(x) for x in flt))
@@ -305,15 +474,15 @@ class Env:
         if t in ('status', 'unsub'):
             return f'{t} {o(op[1])} {o(op[2])}'
         if t == 'notify':
-            return f'notify {self._s(op[1])}'
+            return f'notify {self._s(op[1])} {ov}'
         if t == 'tick':
             return f'tick {op[1]}'
         if t == 'mode':
-            return f'mode {op[1]} {op[2]}'
+            return f'mode {op[1]} {self.MODE_NAME.get(op[2], op[2])}'
         if t == 'hk':
             return 'hk'
         if t == 'stop':
-            return f'stop {int(op[1])}'
+            return f'stop {int(op[1])} {ov}'
         raise ValueError(op)
 
     def _sent(self, msgs):
@@ -401,12 +570,12 @@ class Env:
             payload = L.msg_types.EpisodicMetricReport() if op[1].endswith('/EpisodicMetricReport') else etree.Element(f'{{{NS}}}Report')
             self.mgr.send_to_subscribers(payload, op[1], None)
             m = self.msgs()
-            return line, self._sent(m), ('sent', m)
+            return self._line(op, m), self._sent(m), ('sent', m)
         if t == 'tick':
             self.clock.ticks += op[1]
             return line, 'ok', ('ok',)
         if t == 'mode':
-            self.modes[op[1]] = op[2]
+            self.set_mode(op[1], op[2])
             return line, 'ok', ('ok',)
         if t == 'hk':
             def once():
@@ -419,7 +588,7 @@ class Env:
         if t == 'stop':
             self.mgr.stop_all(send_subscription_end=bool(op[1]))
             m = self.msgs()
-            return line, self._sent(m), ('sent', m)
+            return self._line(op, m), self._sent(m), ('sent', m)
         raise ValueError(op)
 
 
@@ -436,6 +605,8 @@ class Monitor:
         self.fails = []
         self.delivered = 0
         self.withheld = 0
+        self.poison = {}      # netloc -> a connection to it broke while the provider used it and subscriptions of it remained
+        self.stopped = False
 
     def alive(self, r):
         return (not r['unsub']) and (not r['ended']) and self.now < r['at'] + r['granted'] and r['failures'] < self.maxerr
@@ -478,7 +649,9 @@ class Monitor:
         t = op[0]
         if out[0] == 'exc':
             self.fail(f'handler-exception:{t}:{out[1]}', f'{t} raised {out[1]}')
-            return
+            if t not in ('notify', 'stop'):
+                return
+            out = ('sent', out[2])     # what was handed over before the exception escaped is judged as usual
         if t == 'tick':
             self.now += op[1]
         elif t == 'sub':
@@ -487,7 +660,7 @@ class Monitor:
                 self._check_grant('Subscribe', op[5], g)
                 assert i == len(self.recs)
                 self.recs.append(dict(notify=op[1], end=op[2], filter=list(op[3] or []), at=self.now, granted=g,
-                                      failures=0, unsub=False, ended=False, epr=epr))
+                                      failures=0, unsub=False, ended=False, epr=epr, removed=False, unsub_at=None))
         elif t in ('renew', 'status', 'unsub'):
             i = self._target(out[-1])
             r = None if i is None else self.recs[i]
@@ -508,19 +681,45 @@ class Monitor:
                     self._check_grant('Renew', op[3], out[1])
                     r['at'], r['granted'] = self.now, out[1]
                 else:
-                    r['unsub'] = True
+                    r['unsub'], r['unsub_at'] = True, self.now
             else:
                 self.fail(f'unexpected-response:{t}', str(out))
         elif t == 'notify':
             self._notify(op[1], out[1])
         elif t == 'stop':
             self._stop(bool(op[1]), out[1])
-        elif t == 'hk' and out[0] == 'sent':
-            self.fail('message-during-housekeeping', str(out[1]))
+        elif t == 'hk':
+            if out[0] == 'sent':
+                self.fail('message-during-housekeeping', str(out[1]))
+            self._housekeeping()
+
+    def _housekeeping(self):
+        """house-keeping ran: subscriptions that are dead now hold nothing any more; a subscriber address none of whose
+        subscriptions is left starts from scratch (no connection state of an earlier session may be inherited)"""
+        for r in self.recs:
+            if not r['removed'] and (r['ended'] or not self.now < r['at'] + r['granted'] or r['failures'] >= self.maxerr
+                                     or (r['unsub'] and self.now > r['unsub_at'] + 100)):
+                r['removed'] = True
+        for netloc in list(self.poison):
+            if all(r['removed'] for r in self.recs if r['notify'] // 2 == netloc):
+                del self.poison[netloc]
+
+    def _wire(self, kind, i, addr, wire):
+        """connection-level bookkeeping of one hand-over; the starvation clause of `delivered iff`"""
+        if not isinstance(addr, int):
+            return
+        netloc = addr // 2
+        if 'request:reset' in wire:
+            self.poison[netloc] = True
+        if kind == 'n' and not wire and not self.stopped and not self.poison.get(netloc):
+            self.fail('not-sent-on-fresh-connection',
+                      f'notification for subscription {i} was handed to a soap client that did not even try to reach '
+                      f'{addr_str(addr)}: no connection to that subscriber broke since all its earlier subscriptions were removed')
 
     def _notify(self, action, msgs):
         got = {}
-        for kind, i, addr, outcome, act in msgs:
+        for kind, i, addr, outcome, act, wire in msgs:
+            self._wire(kind, i, addr, wire)
             if kind != 'n' or act != action:
                 self.fail('unexpected-message-during-notify', f'{kind} {act}')
             elif i == '?':
@@ -551,7 +750,8 @@ class Monitor:
 
     def _stop(self, send_end, msgs):
         got = {}
-        for kind, i, addr, _outcome, act in msgs:
+        for kind, i, addr, _outcome, act, wire in msgs:
+            self._wire(kind, i, addr, wire)
             if kind != 'e':
                 self.fail('unexpected-message-during-stop', f'{kind} {act}')
             elif i == '?':
@@ -574,6 +774,7 @@ class Monitor:
                 # unsubscribed must not be sent anything any more
                 self.fail('subscription-end-after-unsubscribe', f'unsubscribed subscription {i} got a SubscriptionEnd')
             r['ended'] = True
+        self.stopped = True
 
 
 def execute(case):
@@ -593,8 +794,8 @@ def execute(case):
             outs[-1] += mon.view()
             key = f'op:{op[0]}:{out.split(" ")[0]}'
             stats[key] = stats.get(key, 0) + 1
-            if parsed[0] == 'sent':
-                for m in parsed[1]:
+            if parsed[0] in ('sent', 'exc') and isinstance(parsed[-1], list):
+                for m in parsed[-1]:
                     k2 = f'post:{m[0]}:{m[3]}'
                     stats[k2] = stats.get(k2, 0) + 1
     finally:
